@@ -84,7 +84,7 @@ def gen_case(r, index, tier):
     for _ in range(r.randint(4, 10)):
         mode = r.weighted([("mt", 7), ("lowent", 3)])
         trials.append({"seed": r.below(1 << 31), "mode": mode, "bits": r.randint(0, 3), "alt": bool(alt) and r.chance(0.4),
-                       "verbose": r.chance(0.25)})
+                       "verbose": r.chance(0.25), "reuse": r.chance(0.3)})
     # a flow that places the same netlist again and again while the area estimates of its soft blocks are being revised
     # (preliminary estimates are smaller): every layout of the sequence is judged
     softs = [m["name"] for m in nl["modules"] if m["kind"] == "soft" and not m.get("boxes")]
@@ -198,6 +198,7 @@ def run_case(case):
     tol = 1e-9 * max(W, H)
     sig.append(digest(tree))
     W0, H0 = W, H
+    prev = None
     for t in case["trials"]:
         ops["layout"] = ops.get("layout", 0) + 1
         mode = t["mode"]
@@ -216,7 +217,12 @@ def run_case(case):
                                              if n in t["areas"] and isinstance(info.get("area"), float) else info)
                                          for n, info in tree["Modules"].items()})
             probe("layout_with_revised_area_estimates")
-        net = SP.Spectral(tree_t)
+        if t.get("reuse") and prev is not None and prev[1] == t.get("areas"):
+            net = prev[0]        # the same object is laid out again (a flow that tries several die shapes or seeds)
+            probe("same_object_laid_out_again" + ("_on_another_die" if (W, H) != prev[2] else ""))
+        else:
+            net = SP.Spectral(tree_t)
+        prev = (net, t.get("areas"), (W, H))
         before, nets_before = _snapshot(net)
         # the nets of the *input document* are the reference (constructing the Spectral object must not change them either)
         nets_before = [[[x for x in e if isinstance(x, str)], float(e[-1]) if not isinstance(e[-1], str) else 1.0]
